@@ -229,7 +229,7 @@ def classify(case):
 
 
 ORACLES = [
-    Oracle("manifold", scaled_case(24), check_manifold, classify=classify, quick=1500, thorough=8000),
+    Oracle("manifold", scaled_case(24), check_manifold, classify=classify, quick=1500, thorough=15000),
     Oracle(
         "linearity",
         st.fixed_dictionaries(
@@ -238,7 +238,7 @@ ORACLES = [
         check_linearity,
         classify=classify,
         quick=400,
-        thorough=2500,
+        thorough=5000,
     ),
     Oracle(
         "pair_decomposition",
@@ -246,7 +246,7 @@ ORACLES = [
         check_pair_decomposition,
         classify=classify,
         quick=300,
-        thorough=2000,
+        thorough=4000,
     ),
     Oracle("manifold_large", big_case(), check_manifold, classify=classify, quick=3, thorough=12),
 ]
